@@ -2,12 +2,14 @@
    Statements only; every proof is `exact <lemma from Proofs/AbiEnc*.v>`.
    Spec/AbiSpec.v: the ABI decoder [decode], the admitted values [admits], [cfg_ok], [wf_ty].
    Model/AbiEncModel.v: [encode] = Calldata.encode, [parse_inputs] = parse_tuple_type,
-   [calldataload] = the size-symbol branching of SEVM.calldataload.  Gen/GenAbiEnc.v
-   (size_pad_right, head_size, sizes, flags, type-name patterns) is regenerated from
-   /repo/src/halmos/calldata.py on every run. *)
+   [calldataload] = the size-symbol branching of SEVM.calldataload, [prun] = a path registering
+   several calldata.  Gen/GenAbiEnc.v (size_pad_right, head_size, sizes, flags, type-name
+   patterns) is regenerated from /repo/src/halmos/calldata.py, Gen/GenDynParams.v
+   (process_dyn_params, the decision chain of calldataload, the concretization a path gets from
+   Path.branch / Path.extend_path) from /repo/src/halmos/sevm.py, on every run. *)
 From Coq Require Import String.
 From Coq Require Import ZArith List Bool Lia.
-From HV Require Import Spec.AbiSpec Gen.GenAbiEnc Model.AbiEncModel
+From HV Require Import Spec.AbiSpec Gen.GenAbiEnc Gen.GenDynParams Model.AbiEncModel
   Proofs.AbiEncProofs Proofs.AbiEncInv Proofs.AbiEncInstance Proofs.AbiEncMain Proofs.AbiEncCand.
 Import ListNotations.
 Open Scope Z_scope.
